@@ -74,6 +74,7 @@ struct World {
   // limits
   uint64_t max_events = 200000;
   uint64_t max_sim_ns = 4000ull * 1000000000ull;
+  uint64_t long_sleep_ns = 7200ull * 1000000000ull;   // a wake-up further away than this ends the run as quiescent
   uint64_t events = 0;
   int depth = 0;
   bool aborted = false;        // limits hit or deadlock inside a nested wait
